@@ -92,7 +92,7 @@ Proof.
       destruct (h_qos h =? 0) eqn:E1; destruct (0 <? h_qos h) eqn:E2; try lia;
         cbn [app]; rewrite !len_app, len_field, ?be16_len; lia. }
     rewrite Hl, Hb. unfold publish_too_large.
-    assert (E : (MaxMessageSize <? len (body311 (Publish h topic mid payload))) = false).
+    assert (E : (bodyRoom <? len (body311 (Publish h topic mid payload))) = false).
     { unfold bodyRoom, MaxMessageSize, maxHeaderSize in *. lia. }
     rewrite E. apply finish_spec; [exact F|]. rewrite first_byte_publish by lia. reflexivity.
   - rewrite w_u16_be16 by lia. apply finish_spec; [exact F | reflexivity].
